@@ -725,9 +725,19 @@ impl Op {
                         }
                         EntryMode::OccupiedInsert => {
                             if let xot::Entry::Occupied(mut o) = entry {
-                                let _old = o.insert(value.clone());
-                                let _ = o.get();
-                                let _ = o.key();
+                                // three ways to write through an occupied entry (chosen by the value, so
+                                // that the choice is part of the replayable operation)
+                                let before = o.get().clone();
+                                match value.len() % 3 {
+                                    0 => {
+                                        let old = o.insert(value.clone());
+                                        if old != before {
+                                            return Err(format!("oracle:C11:occupied entry insert returned {:?}, get() showed {:?}", old, before));
+                                        }
+                                    }
+                                    1 => *o.get_mut() = value.clone(),
+                                    _ => *o.into_mut() = value.clone(),
+                                }
                             }
                         }
                         EntryMode::OccupiedRemove => {
@@ -831,7 +841,17 @@ impl Op {
                         }
                         EntryMode::OccupiedInsert => {
                             if let xot::Entry::Occupied(mut o) = entry {
-                                o.insert(u);
+                                let before = *o.get();
+                                match uri.len() % 3 {
+                                    0 => {
+                                        let old = o.insert(u);
+                                        if old != before {
+                                            return Err(format!("oracle:C11:occupied entry insert returned {:?}, get() showed {:?}", old, before));
+                                        }
+                                    }
+                                    1 => *o.get_mut() = u,
+                                    _ => *o.into_mut() = u,
+                                }
                             }
                         }
                         EntryMode::OccupiedRemove => {
@@ -849,8 +869,15 @@ impl Op {
                 Ok(x.namespaces(en).get_node(p))
             }
             SetElementName { e, name: nm } => {
+                let two_routes = nm.local.len() + nm.uri.len();
                 let nm = name(x, nm);
-                x.set_element_name(h(*e), nm);
+                if two_routes % 2 == 0 {
+                    x.set_element_name(h(*e), nm);
+                } else {
+                    // the same through the typed mutable accessor (documented to be None on a non-element;
+                    // the engine never sends a non-element here)
+                    x.element_mut(h(*e)).expect("harness: element_mut on an element").set_name(nm);
+                }
                 Ok(None)
             }
             TextSet { n, s } => {
